@@ -142,7 +142,11 @@ func runMODES(e *Env) (*Summary, error) {
 							same = multiset(rl) == multiset(bl)
 						}
 						if !same {
-							mk([]string{"C03"}, "row-vs-batch-rows", "batch: "+strings.Join(bl, " ; "), "row: "+strings.Join(rl, " ; "))
+							props := []string{"C03"}
+							if strings.HasPrefix(strings.ToLower(q), "select *") && !ordered && !strings.Contains(q, " limit ") {
+								props = append(props, "C01") // C01: the same rows in both iteration modes
+							}
+							mk(props, "row-vs-batch-rows", "batch: "+strings.Join(bl, " ; "), "row: "+strings.Join(rl, " ; "))
 						}
 					}
 				}
